@@ -45,7 +45,7 @@ func newOidCanon() *oidCanon {
 func isUserOid(o primitive.ObjectID) bool { return o[0] == 0 || o[0] == 0xff }
 
 func (c *oidCanon) oid(o primitive.ObjectID) primitive.ObjectID {
-	if isUserOid(o) {
+	if isUserOid(o) || c.base < 0 {
 		return o
 	}
 	n := ((int(o[9])<<16 | int(o[10])<<8 | int(o[11])) - c.base) & 0xffffff
@@ -234,7 +234,7 @@ func errClass(err error) string {
 
 func (a *apiRun) ctx(sid int64) (context.Context, context.CancelFunc) {
 	// a short deadline turns "would block on the writer token" into an error
-	base, cancel := context.WithTimeout(context.Background(), 150*time.Millisecond)
+	base, cancel := context.WithTimeout(context.Background(), 30*time.Millisecond)
 	if sid > 0 {
 		if s, ok := a.sessions[sid]; ok {
 			return lungo.VerifSessionContext(base, s.(*lungo.Session)), cancel
@@ -752,8 +752,118 @@ func (g *apiGen) doc(withID bool) bson.D {
 	return d
 }
 
+func (g *apiGen) fullFilter(depth int) bson.D {
+	r := g.r
+	f := pick(r, []string{"a", "b", "c", "_id", "d.e"})
+	var v interface{} = g.scalar()
+	if f == "_id" {
+		v = g.id()
+	}
+	switch r.intn(14) {
+	case 0:
+		return bson.D{}
+	case 1, 2:
+		return bson.D{{Key: f, Value: v}}
+	case 3:
+		return bson.D{{Key: f, Value: bson.D{{Key: pick(r, []string{"$gt", "$gte", "$lt", "$lte", "$ne", "$eq"}), Value: v}}}}
+	case 4:
+		return bson.D{{Key: f, Value: bson.D{{Key: pick(r, []string{"$in", "$nin"}), Value: bson.A{g.scalar(), v}}}}}
+	case 5:
+		return bson.D{{Key: f, Value: bson.D{{Key: "$exists", Value: r.chance(1, 2)}}}}
+	case 6:
+		return bson.D{{Key: f, Value: bson.D{{Key: "$type", Value: pick(r, []interface{}{"number", "string", "array", int32(16), "null"})}}}}
+	case 7:
+		if depth > 0 {
+			return bson.D{{Key: pick(r, []string{"$and", "$or", "$nor"}), Value: bson.A{g.fullFilter(depth - 1), g.fullFilter(depth - 1)}}}
+		}
+		return bson.D{{Key: f, Value: v}}
+	case 8:
+		return bson.D{{Key: f, Value: bson.D{{Key: "$not", Value: bson.D{{Key: "$gt", Value: v}}}}}}
+	case 9:
+		return bson.D{{Key: f, Value: bson.D{{Key: "$size", Value: int32(r.intn(3))}}}}
+	case 10:
+		return bson.D{{Key: f, Value: bson.D{{Key: "$all", Value: bson.A{g.scalar()}}}}}
+	case 11:
+		// malformed
+		return bson.D{{Key: f, Value: bson.D{{Key: pick(r, []string{"$foo", "$in", "$size", "$mod"}), Value: g.scalar()}}}}
+	case 12:
+		return bson.D{{Key: f, Value: bson.D{{Key: "$elemMatch", Value: bson.D{{Key: "$gt", Value: g.scalar()}}}}}}
+	default:
+		return bson.D{{Key: "a", Value: g.scalar()}, {Key: "b", Value: bson.D{{Key: "$gte", Value: g.scalar()}}}}
+	}
+}
+
+func (g *apiGen) fullUpdate() bson.D {
+	r := g.r
+	f := pick(r, []string{"a", "b", "c", "_id", "d.e", "a.0", "c.x"})
+	var v interface{} = g.scalar()
+	if f == "_id" {
+		v = g.id()
+	}
+	n := pick(r, []interface{}{int32(1), int32(2), int64(3), float64(1.5), int32(-1), "x"})
+	one := func(op string, arg interface{}) bson.D { return bson.D{{Key: op, Value: bson.D{{Key: f, Value: arg}}}} }
+	switch r.intn(18) {
+	case 0, 1, 2:
+		return one("$set", v)
+	case 3:
+		return one("$unset", "")
+	case 4, 5:
+		return one("$inc", n)
+	case 6:
+		return one("$mul", n)
+	case 7:
+		return one(pick(r, []string{"$min", "$max"}), v)
+	case 8:
+		return one("$push", v)
+	case 9:
+		return one("$push", bson.D{{Key: "$each", Value: bson.A{g.scalar(), g.scalar()}}, {Key: "$slice", Value: int32(r.intn(4) - 1)}})
+	case 10:
+		return one("$pop", pick(r, []interface{}{int32(1), int32(-1)}))
+	case 11:
+		return one(pick(r, []string{"$pull", "$addToSet"}), v)
+	case 12:
+		return one("$pullAll", bson.A{g.scalar(), g.scalar()})
+	case 13:
+		return one("$rename", pick(r, []string{"z", "b", "a", "c.y"}))
+	case 14:
+		return one("$setOnInsert", v)
+	case 15:
+		return bson.D{{Key: "$set", Value: bson.D{{Key: "a", Value: g.scalar()}}}, {Key: "$inc", Value: bson.D{{Key: pick(r, []string{"b", "a"}), Value: int32(1)}}}}
+	case 16:
+		return one(pick(r, []string{"$foo", "$bit"}), v)
+	default:
+		return bson.D{{Key: "a", Value: g.scalar()}} // not an operator document
+	}
+}
+
+func (g *apiGen) projection() string {
+	r := g.r
+	if !g.full || r.chance(1, 2) {
+		return "NIL"
+	}
+	switch r.intn(7) {
+	case 0:
+		return enc(bson.D{{Key: "a", Value: int32(1)}})
+	case 1:
+		return enc(bson.D{{Key: "a", Value: int32(0)}})
+	case 2:
+		return enc(bson.D{{Key: "a", Value: int32(1)}, {Key: "b", Value: int32(0)}}) // invalid mix
+	case 3:
+		return enc(bson.D{{Key: "_id", Value: int32(0)}, {Key: "b", Value: int32(1)}, {Key: "d.e", Value: int32(1)}})
+	case 4:
+		return enc(bson.D{{Key: "a", Value: bson.D{{Key: "$slice", Value: int32(1)}}}})
+	case 5:
+		return enc(bson.D{{Key: "c", Value: "x"}}) // invalid argument
+	default:
+		return enc(bson.D{{Key: "b", Value: true}, {Key: "c", Value: int64(1)}})
+	}
+}
+
 func (g *apiGen) filter() bson.D {
 	r := g.r
+	if g.full && r.chance(1, 2) {
+		return g.fullFilter(2)
+	}
 	switch r.intn(6) {
 	case 0:
 		return bson.D{}
@@ -770,6 +880,9 @@ func (g *apiGen) filter() bson.D {
 
 func (g *apiGen) update() bson.D {
 	r := g.r
+	if g.full && r.chance(2, 3) {
+		return g.fullUpdate()
+	}
 	f := pick(r, []string{"a", "b", "c", "_id", "d.e"})
 	var v interface{} = g.scalar()
 	if f == "_id" {
@@ -878,11 +991,11 @@ func (g *apiGen) call() string {
 	case k < 46:
 		return "(delete " + s + " " + t + " " + pick(r, []string{"one", "many"}) + " " + enc(g.filter()) + ")"
 	case k < 50:
-		return "(fau " + s + " " + t + " " + enc(g.filter()) + " " + enc(g.update()) + " " + g.sortSpec() + " NIL " + tf(r.chance(1, 3)) + " " + tf(r.chance(1, 2)) + " ())"
+		return "(fau " + s + " " + t + " " + enc(g.filter()) + " " + enc(g.update()) + " " + g.sortSpec() + " " + g.projection() + " " + tf(r.chance(1, 3)) + " " + tf(r.chance(1, 2)) + " ())"
 	case k < 53:
-		return "(far " + s + " " + t + " " + enc(g.filter()) + " " + enc(g.doc(r.chance(1, 3))) + " " + g.sortSpec() + " NIL " + tf(r.chance(1, 3)) + " " + tf(r.chance(1, 2)) + ")"
+		return "(far " + s + " " + t + " " + enc(g.filter()) + " " + enc(g.doc(r.chance(1, 3))) + " " + g.sortSpec() + " " + g.projection() + " " + tf(r.chance(1, 3)) + " " + tf(r.chance(1, 2)) + ")"
 	case k < 56:
-		return "(fad " + s + " " + t + " " + enc(g.filter()) + " " + g.sortSpec() + " NIL)"
+		return "(fad " + s + " " + t + " " + enc(g.filter()) + " " + g.sortSpec() + " " + g.projection() + ")"
 	case k < 60:
 		n := r.intn(3) + 1
 		var ops []string
@@ -902,9 +1015,9 @@ func (g *apiGen) call() string {
 	case k < 68:
 		skip := pick(r, []int{0, 0, 0, 1, 2, 5})
 		limit := pick(r, []int{0, 0, 1, 2, 5})
-		return "(find " + s + " " + t + " " + enc(g.filter()) + " " + g.sortSpec() + " NIL " + strconv.Itoa(skip) + " " + strconv.Itoa(limit) + ")"
+		return "(find " + s + " " + t + " " + enc(g.filter()) + " " + g.sortSpec() + " " + g.projection() + " " + strconv.Itoa(skip) + " " + strconv.Itoa(limit) + ")"
 	case k < 71:
-		return "(findOne " + s + " " + t + " " + enc(g.filter()) + " " + g.sortSpec() + " NIL " + strconv.Itoa(pick(r, []int{0, 0, 1, 3})) + ")"
+		return "(findOne " + s + " " + t + " " + enc(g.filter()) + " " + g.sortSpec() + " " + g.projection() + " " + strconv.Itoa(pick(r, []int{0, 0, 1, 3})) + ")"
 	case k < 74:
 		return "(count " + s + " " + t + " " + enc(g.filter()) + " " + strconv.Itoa(pick(r, []int{0, 0, 1, 3})) + " " + strconv.Itoa(pick(r, []int{0, 0, 1, 2})) + ")"
 	case k < 77:
@@ -949,8 +1062,14 @@ func (g *apiGen) call() string {
 	}
 }
 
-func genAPI(r *rng) string {
-	g := &apiGen{r: r}
+func genAPI(r *rng) string { return genAPIMode(r, false) }
+
+// genAPIFull uses the whole operator grammar (model-free oracles; the
+// correspondence family switches to it once Match/Apply/Project are modelled)
+func genAPIFull(r *rng) string { return genAPIMode(r, true) }
+
+func genAPIMode(r *rng, full bool) string {
+	g := &apiGen{r: r, full: full}
 	n := 5 + r.intn(30)
 	parts := []string{"api", "0"}
 	for i := 0; i < n; i++ {
